@@ -854,8 +854,8 @@ func (ss *SpecSet) ReadSpecFile(path, pkgPrefix string) error {
 					cur.Clauses = append(cur.Clauses, &Clause{Kind: "loopset", Loop: n, Site: f[2], E: e, Src: body, File: path, Line: rc.line})
 					continue
 				}
-				if err != nil || (f[1] != "invariant" && f[1] != "decreases") {
-					fail(rc.line, "loop N invariant|decreases|set EXPR")
+				if err != nil || (f[1] != "invariant" && f[1] != "decreases" && f[1] != "continue") {
+					fail(rc.line, "loop N invariant|decreases|continue|set EXPR")
 					continue
 				}
 				c := &Clause{Kind: f[1], Loop: n, File: path, Line: rc.line}
